@@ -134,7 +134,7 @@ pub fn main(a: &Args) -> i32 {
         let cfg = eng::cfg(page, *[32usize, 200, 2000].get(r.random_range(0..3)).unwrap(), 2, r.random_range(3..9), r.random_range(1..4));
         let kind = (s as u32 + seed as u32) % 4;
         let overflow_profile = r.random_range(0..4) == 0;
-        let un = if overflow_profile { 14 } else if r.random_bool(0.3) { r.random_range(400..900) } else { r.random_range(40..220) };
+        let un = if overflow_profile { r.random_range(20..60) } else if r.random_bool(0.3) { r.random_range(400..900) } else { r.random_range(40..220) };
         let (kinds, keys) = universe(&mut r, kind, un);
         let nk = kinds.len();
         let mut all = kinds.clone();
@@ -147,21 +147,18 @@ pub fn main(a: &Args) -> i32 {
         let mut sg = Seg { t: &mut t, tree, keys, nk, sizes, npay: 64, failed: None };
         let n = sg.keys.len();
         let mut present: Vec<usize> = vec![];
-        let seg_ops = if overflow_profile { 40 } else if un > 300 { ops * 4 } else { ops };
+        let seg_ops = if overflow_profile { 160 } else if un > 300 { ops * 4 } else { ops };
         // phases: grow (mostly inserts, in one of several orders), churn, shrink to empty, regrow
         let mut order: Vec<usize> = (0..n).collect();
         match r.random_range(0..4) { 0 => {} 1 => order.reverse(), _ => order.shuffle(&mut r) }
         let mut oi = 0;
         for step in 0..seg_ops {
             if sg.failed.is_some() { break; }
-            let phase = if overflow_profile { 0 } else { (step * 4) / seg_ops };
+            let phase = (step * 4) / seg_ops;
             let c = r.random_range(0..100);
             let v = r.random_range(0..sg.npay);
             let pick_present = |r: &mut R, p: &Vec<usize>| if p.is_empty() { None } else { Some(p[r.random_range(0..p.len())]) };
-            if overflow_profile {
-                // rows with overflow chains: inserted, looked up, scanned; never rewritten (finding SeparatorAliasesOverflowChain)
-                if c < 70 { let k = order[oi % n]; oi += 1; sg.op("insert", k, v); if !present.contains(&k) { present.push(k); } }
-                else { let k = r.random_range(0..n); sg.search(k); }
+            if false {
             } else if (phase == 0 || phase == 3) && c < 70 || c < 25 {
                 let k = if c % 5 == 0 { r.random_range(0..n) } else { let k = order[oi % n]; oi += 1; k };
                 if c % 7 == 0 { sg.op("upsert", k, v); if sg.failed.is_none() && !present.contains(&k) { present.push(k); } }
@@ -181,7 +178,7 @@ pub fn main(a: &Args) -> i32 {
             }
         }
         // delete everything, then insert again
-        if sg.failed.is_none() && !overflow_profile && r.random_bool(0.5) {
+        if sg.failed.is_none() && r.random_bool(0.5) {
             present.shuffle(&mut r);
             for (i, k) in present.clone().into_iter().enumerate() {
                 if sg.failed.is_some() { break; }
